@@ -56,6 +56,7 @@ func VH_C01_e2e_equal_24()  { vE2E(24, 1) }
 func VH_C01_e2e_canon_24()  { vE2E(24, 2) }
 func VH_C01_e2e_copy_24()   { vE2E(24, 3) }
 func VH_C01_e2e_access_32() { vE2E(32, 0) }
+
 // (equal_32 did not finish within 50 minutes and is not registered)
-func VH_C01_e2e_canon_32()  { vE2E(32, 2) }
-func VH_C01_e2e_copy_32()   { vE2E(32, 3) }
+func VH_C01_e2e_canon_32() { vE2E(32, 2) }
+func VH_C01_e2e_copy_32()  { vE2E(32, 3) }
